@@ -54,6 +54,16 @@ def wrap(v):
     return need(v)
 
 
+def untuple(v):
+    """an opaque tuple(...) value back as a Python tuple (one level)"""
+    if isinstance(v, tuple) or v is None or is_unknown(v) or isinstance(v, str):
+        return v
+    u = unfn(v)
+    if u is not None and u[0] == "tuple" and not any(isinstance(x, str) for x in u[1]):
+        return tuple(u[1])
+    return v
+
+
 def app(v, name=None):
     """(name, args) if v is exactly one opaque application (of `name` when given), else None"""
     if isinstance(v, (tuple, str)):
@@ -466,14 +476,18 @@ class XEval(AutoEvaluator):
         if isinstance(x, tuple):
             return F.const(len(x))
         u = app(x, "idx")
-        if u is not None and not isinstance(u[1][1], str):
-            s = app(u[1][1], "slice")
-            if s is not None:
+        if u is not None and not isinstance(u[1][1], str) and not isinstance(u[1][0], str):
+            t = app(u[1][1], "tuple")
+            parts = list(t[1]) if t is not None else [u[1][1]]
+            s = app(parts[-1], "slice")
+            if s is not None and all(self._scalar_index(p) for p in parts[:-1]):
                 lo, hi, stp = s[1]
                 clo = 0 if sym_of(lo) == "None" else const_of(lo)
                 chi = 0 if sym_of(hi) == "None" else const_of(hi)
                 if sym_of(stp) == "None" and clo is not None and chi is not None and clo >= 0 and chi <= 0:
-                    return self.mk_len(u[1][0]) - clo + chi
+                    pre = parts[:-1]
+                    inner = u[1][0] if not pre else F.fn("idx", u[1][0], pre[0] if len(pre) == 1 else F.fn("tuple", *pre))
+                    return self.mk_len(inner) - clo + chi
         u = app(x, "comp")
         if u is not None:
             return u[1][1]
@@ -508,12 +522,13 @@ class XEval(AutoEvaluator):
                 t1 = app(ix, "tuple")
                 rest = list(t1[1]) if t1 is not None else [ix]
                 return F.fn("idx", b0, F.fn("tuple", *(first + rest)))
-            s = app(i0, "slice")
-            if s is not None and self._scalar_index(ix) and const_of(ix) is None:
+            s = app(first[-1], "slice")
+            if s is not None and all(self._scalar_index(x) for x in first[:-1]) and self._scalar_index(ix) and const_of(ix) is None:
                 lo, hi, stp = s[1]
                 clo = 0 if sym_of(lo) == "None" else const_of(lo)
                 if sym_of(stp) == "None" and clo is not None and clo >= 0 and (sym_of(hi) == "None" or (const_of(hi) is not None and const_of(hi) < 0)):
-                    return F.fn("idx", b0, ix + clo)
+                    new = first[:-1] + [ix + clo]
+                    return F.fn("idx", b0, new[0] if len(new) == 1 else F.fn("tuple", *new))
         return F.fn("idx", need(base), ix)
 
     def _ev(self, node):
@@ -530,6 +545,14 @@ class XEval(AutoEvaluator):
             if any(is_unknown(p) or isinstance(p, tuple) for p in parts):
                 return next((p for p in parts if is_unknown(p)), Unknown("comparison of tuples"))
             return F.fn("bool:And", *parts)
+        if isinstance(node, ast.Compare) and len(node.ops) == 1:
+            a, b = self._ev(node.left), self._ev(node.comparators[0])
+            if is_unknown(a) or is_unknown(b):
+                return a if is_unknown(a) else b
+            try:
+                return F.fn("cmp:" + type(node.ops[0]).__name__, wrap(a), wrap(b))
+            except Unsupported as e:
+                return Unknown(str(e))
         if isinstance(node, ast.IfExp):
             tv = self._ev(node.test)
             c = self.truth(tv)
@@ -604,6 +627,11 @@ class XEval(AutoEvaluator):
             u = app(base, "attr:shape")
             if u is not None and const_of(ix) == 0:
                 return self.mk_len(u[1][0])
+            if sym_of(base) == "<locals>":
+                sp = str_parts(ix)
+                if sp is not None and len(sp) == 1 and isinstance(sp[0], str) and sp[0] in self.env:
+                    return self.env[sp[0]]
+                return Unknown(f"locals()[{ix!r}]")
             return self.mk_idx(base, ix)
         if isinstance(node, ast.BinOp) and isinstance(node.op, ast.MatMult):
             return self._dot(self._ev(node.left), self._ev(node.right))
@@ -705,24 +733,45 @@ class XEval(AutoEvaluator):
         return F.fn("dict", *parts)
 
     # ------------------------------------------------------------------ calls
+    def _deep(self, v):
+        return isinstance(v, tuple) and any(isinstance(x, tuple) for x in v)
+
     def _args_expanded(self, node):
-        """the call with `*tuple` arguments expanded and every argument replaced by a name bound to its value"""
+        """the call with every argument evaluated once and replaced by a name bound to its value: `*tuple` arguments are expanded,
+        `**d` is the keyword `_kwargs`, tuples given by keyword and nested tuples are opaque tuple(...) values"""
         args = []
         for a in node.args:
-            if isinstance(a, ast.Starred):
+            if isinstance(a, ast.Name) and a.id.startswith("<val:"):
+                args.append(a)
+            elif isinstance(a, ast.Starred):
                 v = self.ev(a.value)
                 if isinstance(v, tuple):
-                    args += [self._tmpname(x) for x in v]
+                    args += [self._tmpname(wrap(x) if self._deep(x) else x) for x in v]
                 elif is_unknown(v):
                     args.append(self._tmpname(v))
                 else:
                     args.append(self._tmpname(F.fn("star", need(v))))
             else:
-                args.append(a)
-        return ast.Call(func=node.func, args=args, keywords=node.keywords)
+                v = self.ev(a)
+                try:
+                    args.append(self._tmpname(wrap(v) if self._deep(v) else v))
+                except Unsupported as e:
+                    args.append(self._tmpname(Unknown(str(e))))
+        kws = []
+        for k in node.keywords:
+            if isinstance(k.value, ast.Name) and k.value.id.startswith("<val:"):
+                kws.append(k)
+                continue
+            v = self.ev(k.value)
+            try:
+                v = wrap(v) if isinstance(v, tuple) else v
+            except Unsupported as e:
+                v = Unknown(str(e))
+            kws.append(ast.keyword(arg=k.arg if k.arg is not None else "_kwargs", value=self._tmpname(v)))
+        return ast.Call(func=node.func, args=args, keywords=kws)
 
     def _call(self, node):
-        if any(isinstance(a, ast.Starred) for a in node.args):
+        if node.args or node.keywords:
             new = self._args_expanded(node)
             ast.copy_location(new, node)
             for attr in ("_vparent", "_vmod"):
@@ -769,10 +818,11 @@ class XEval(AutoEvaluator):
         if d in ("np.hstack", "np.concatenate") and nargs == 1 and kws <= {"axis"}:
             ax = next((self.ev(k.value) for k in node.keywords if k.arg == "axis"), None)
             if ax is None or const_of(ax) in (1, -1) or (d == "np.concatenate" and const_of(ax) == 0):
-                v = self.ev(node.args[0])
+                v = untuple(self.ev(node.args[0]))
                 if isinstance(v, tuple):
                     parts = []
                     for x in v:
+                        x = untuple(x)
                         if isinstance(x, tuple):
                             parts += list(x)
                         else:
@@ -781,23 +831,26 @@ class XEval(AutoEvaluator):
                         return next((x for x in parts if is_unknown(x)), Unknown("nested tuple"))
                     return F.fn("hcat", *[need(x) for x in parts])
         if d in ("np.vstack", "np.column_stack", "np.stack", "np.row_stack") and nargs == 1 and not kws:
-            v = self.ev(node.args[0])
+            v = untuple(self.ev(node.args[0]))
             if isinstance(v, tuple):
                 out = []
                 for x in v:
+                    x = untuple(x)
                     if isinstance(x, tuple):
                         out += list(x)
                     else:
                         out.append(x)
                 return tuple(out)
         if d == "zip" and not kws and nargs >= 1:
-            vs = [self.ev(a) for a in node.args]
+            vs = [untuple(self.ev(a)) for a in node.args]
             if all(isinstance(v, tuple) for v in vs) and len({len(v) for v in vs}) == 1:
                 return tuple(tuple(v[i] for v in vs) for i in range(len(vs[0])))
         if d == "dict" and nargs <= 1:
             parts = []
             if nargs == 1:
-                v = self.ev(node.args[0])
+                v = untuple(self.ev(node.args[0]))
+                if isinstance(v, tuple):
+                    v = tuple(untuple(x) for x in v)
                 if not (isinstance(v, tuple) and all(isinstance(x, tuple) and len(x) == 2 for x in v)):
                     return Unknown("dict() of something that is not a sequence of pairs")
                 for k, x in v:
